@@ -270,7 +270,16 @@ class Gen:
             return ("if", self.cond(), t, e)
         if r < 0.92:
             c = None if self.rng.random() < 0.5 else self.cond()
-            return ("while", c, self.block(depth + 1, True, False, need_susp_first=self.rng.random() < 0.5))
+            body = self.block(depth + 1, True, False, need_susp_first=self.rng.random() < 0.5)
+            if depth + 2 <= self.max_depth and self.rng.random() < 0.35:
+                # nested loop followed by a break / continue of this loop
+                inner = ("while", self.cond(), [self.eff(), self.await_()])
+                tail = ("if", self.cond(), [(self.rng.choice(["break", "continue"]),)], [])
+                body = [self.await_()] + body[:2] + [inner, tail] + ([self.eff()] if self.rng.random() < 0.5 else [])
+                body = [x for x in body if x[0] not in ("break", "continue", "return")][:-0 or None]
+                if not any(x[0] == "if" and x[2] and x[2][0][0] in ("break", "continue") for x in body):
+                    body.append(tail)
+            return ("while", c, body)
         if r < 0.97:
             return ("call", self.block(depth + 1, False, True))
         return ("whilefalse", [self.eff()])
@@ -316,6 +325,14 @@ CORPUS = [
     [("while", None, [("await", C0), ("while", C1, [E(1), ("await", C0), ("if", ("var", 1), [("break",)], [])]), E(2)])],
     [E(1), ("if", C0, [("if", C1, [("await", C0), E(2)], [E(3)])], [("await", C1)]), E(4)],
     [("while", C0, [("await", C1), ("if", C0, [("continue",)], [E(1)]), ("await", "true")]), E(2), ("await", C1)],
+    # nested loops: break / continue of the OUTER loop textually after the inner loop
+    [("while", None, [E(1), ("await", C0), ("while", C1, [E(2), ("await", C0)]), ("if", C0, [("break",)], []), E(3)]), E(6), ("await", C1)],
+    [("while", None, [("await", C0), ("while", None, [E(1), ("await", C1), ("if", C0, [("break",)], [])]), ("if", C1, [("break",)], [("continue",)])]), E(5)],
+    [E(1), ("while", C0, [("await", C1), ("while", C1, [("await", C0), ("if", C0, [("continue",)], []), E(2)]), ("if", ("var", 2), [("continue",)], [("break",)])]), E(4)],
+    [("call", [("while", None, [("await", C0), ("while", C1, [E(1), ("await", C0), ("if", C0, [("return",)], [])]), ("if", C1, [("break",)], [])]), E(2)]), E(3), ("await", C0)],
+    # a leading loop whose body starts with an await
+    [("while", None, [("await", C0), E(1)]), E(2)],
+    [("while", None, [("await", C0), E(1), ("if", C1, [("break",)], [])]), E(2), ("await", C1)],
 ]
 
 
@@ -355,6 +372,10 @@ def diagnose(path):
         f.write(src + DIAG)
     rc, out, err = common.coqc(dpath, 3000)
     outs = common.coq_outputs(out)
+    while outs and not outs[0].startswith("V"):
+        if outs[0].strip() in ("false", "(false, true)", "(true, false)", "(false, false)"):
+            return "error", {"log": "dead-variable side condition conc_all_ok is false: " + (out + err)[-600:]}
+        outs = outs[1:]
     verdict = outs[0] if outs else ""
     if verdict.startswith("VCex"):
         return "cex", {"path": verdict, "traces": outs[1] if len(outs) > 1 else ""}
